@@ -43,7 +43,7 @@ func registerC20() {
 		Level: "exploration",
 		Rule: "the constant table is generated at check time from the types.go of the tree under test (go/parser) and compiled into the checker; a case is one (type, value): " +
 			"every constant of every generated type, every remaining value of 8- and 16-bit types, and for 32-bit types all neighbours of constants plus 200000 PRNG values; " +
-			"before any sequential use in the worker process, 8 goroutines make the process's first String() calls of each type at the same moment; non-trivial: String() was called and compared (named value: one of the names without the type prefix; other value: Type(n)); plus regeneration of types_string.go with the repository's own stringer (verif-tagged fitgen) compared byte for byte",
+			"before any sequential use in the worker process, 8 goroutines make the process's first String() calls of each type at the same moment; non-trivial: String() was called and compared (named value: one of the names without the type prefix; other value: Type(n)); the value checks are repeated in a binary built with GOARCH=386 (32-bit int) when the host can run it; plus regeneration of types_string.go with the repository's own stringer (verif-tagged fitgen) compared byte for byte",
 		Assume:        []string{"Bool (hand-written in types_man.go, prints prefixed names by design) is reported separately and not judged by the generated-type rule"},
 		MinNontrivial: 100000,
 		WorkerProcs:   4,
@@ -169,6 +169,7 @@ func c20Main(c *lib.Ctx) {
 	c.Res.Extra["bool_strings"] = map[string]string{"0": fit.Bool(0).String(), "1": fit.Bool(1).String(), "255": fit.Bool(255).String(), "7": fit.Bool(7).String()}
 	c.Sample("constant", 1, map[string]interface{}{"type": c20Types[0].Name, "const": c20Types[0].Consts[0].Name, "value": c20Types[0].Consts[0].Value, "string": c20Types[0].Str(c20Types[0].Consts[0].Value)})
 	c20Storms(c)
+	c20OtherArch(c)
 	c20Tables(c)
 }
 
@@ -288,6 +289,9 @@ func c20Storm(t c20Type, g int) (int, string) {
 // C20Sub: "storm <type index>": one fresh process whose very first String() calls of the type come
 // from 12 goroutines at once. Prints OK or BAD <message>; a fatal runtime error kills it.
 func C20Sub(args []string) int {
+	if len(args) >= 1 && args[0] == "values" {
+		return c20Values()
+	}
 	if len(args) < 2 || args[0] != "storm" {
 		return 2
 	}
@@ -343,4 +347,96 @@ func c20Storms(c *lib.Ctx) {
 		}
 	}
 	wg.Wait()
+}
+
+// c20Values is the body of the cross-architecture run (the binary built with GOARCH=386, where int
+// is 32 bits wide): every constant of every type, and for every type boundary values, neighbours of
+// constants and PRNG values, printed and compared. Prints one BAD line per mismatch (at most 20),
+// then "DONE <checked>".
+func c20Values() int {
+	bad, checked := 0, 0
+	for _, t := range c20Types {
+		names := map[uint64][]string{}
+		for _, k := range t.Consts {
+			names[k.Value] = append(names[k.Value], strings.TrimPrefix(k.Name, t.Name))
+		}
+		mask := ^uint64(0)
+		if t.Bits < 64 {
+			mask = 1<<uint(t.Bits) - 1
+		}
+		check := func(v uint64) {
+			v &= mask
+			got := t.Str(v)
+			checked++
+			if ns, ok := names[v]; ok {
+				for _, n := range ns {
+					if got == n {
+						return
+					}
+				}
+			} else {
+				want := fmt.Sprintf("%s(%d)", t.Name, v)
+				if t.Signed {
+					want = fmt.Sprintf("%s(%d)", t.Name, int64(v<<uint(64-t.Bits))>>uint(64-t.Bits))
+				}
+				if got == want {
+					return
+				}
+			}
+			bad++
+			if bad <= 20 {
+				fmt.Printf("BAD %s(%d).String() = %q\n", t.Name, v, got)
+			}
+		}
+		for v := range names {
+			for d := uint64(0); d < 5; d++ {
+				check(v + d - 2)
+			}
+		}
+		for _, v := range []uint64{0, 1, 2, mask, mask - 1, mask >> 1, mask>>1 + 1, mask>>1 + 2, mask>>1 - 1, 3000000000, 4000000000, 2147483648, 2147483647} {
+			check(v)
+		}
+		rng := lib.NewRand("C20.values."+t.Name, 0)
+		n := 2000
+		if t.Bits >= 32 {
+			n = 40000
+		}
+		for i := 0; i < n; i++ {
+			check(rng.U64())
+		}
+	}
+	fmt.Printf("DONE %d\n", checked)
+	return 0
+}
+
+// c20OtherArch runs the value checks in a binary built for a 32-bit architecture, if ./run built one.
+func c20OtherArch(c *lib.Ctx) {
+	bin := os.Getenv("VERIF_VCHECK386")
+	if bin == "" {
+		c.Res.Extra["goarch_386_run"] = "not built (run through ./run C20)"
+		return
+	}
+	out, err := exec.Command(bin, "c20", "values").CombinedOutput()
+	text := string(out)
+	if err != nil || !strings.Contains(text, "DONE ") {
+		// cannot execute 386 binaries here, or the process died
+		if strings.Contains(text, "BAD ") {
+			c.Violation(nil, "GOARCH=386 run of the String() checks: %s", tail(out, 600))
+			return
+		}
+		c.Res.Extra["goarch_386_run"] = "could not run: " + fmt.Sprint(err) + " " + tail(out, 200)
+		return
+	}
+	for _, l := range strings.Split(text, "\n") {
+		if strings.HasPrefix(l, "BAD ") {
+			c.Violation(nil, "on a platform with 32-bit int (GOARCH=386): %s", strings.TrimPrefix(l, "BAD "))
+		}
+		if strings.HasPrefix(l, "DONE ") {
+			n, _ := strconv.Atoi(strings.TrimPrefix(l, "DONE "))
+			c.EvalN(int64(n))
+			c.NontrivialN(int64(n))
+			c.Count("values_checked_under_GOARCH_386", int64(n))
+			c.Res.Extra["goarch_386_run"] = "ok"
+		}
+	}
 }
